@@ -19,7 +19,10 @@ HEAD2 = ["", "Non-Zero Field Values", "---------------------"]
 
 def impl_fields(path):
     from io_drawer.hlog import get_hlog_fields
-    return [(f.name, f.size) for f in get_hlog_fields(path)]
+    try:
+        return [(f.name, f.size) for f in get_hlog_fields(path)]
+    except Exception as e:  # noqa: BLE001  (an escaping exception is a result of its own)
+        return [("<get_hlog_fields raised %s: %s>" % (type(e).__name__, str(e)[:120]), 1)]
 
 
 def impl_parse(d, path):
@@ -28,6 +31,8 @@ def impl_parse(d, path):
         return parse_hlog_data(memoryview(bytes(d)), path)
     except AssertionError:
         return None
+    except Exception as e:  # noqa: BLE001
+        return ["<parse_hlog_data raised %s: %s>" % (type(e).__name__, str(e)[:120])]
 
 
 def impl_dump_parse(lines):
@@ -178,7 +183,11 @@ def header_lines(rng, fields, noise=False):
                                      '  x { 1, "prefixed" },']))
         last = i == len(fields) - 1
         comma = "" if (last and rng.random() < 0.5) else ","
-        if style == 3:
+        if noise and rng.random() < 0.15:
+            # white space of the grammar that is not a line end: a form feed or a vertical tab between the tokens of an entry
+            ws = rng.choice(["\f", "\v", " \f ", "\t\v"])
+            lines.append('  {%s%d,%s"%s"%s}%s' % (ws, w, ws, name, ws, comma))
+        elif style == 3:
             lines.append('{%d,"%s"}%s' % (w, name, comma))
         elif style == 2:
             lines.append('   {  %d  ,  "%s"  }  %s  ' % (w, name, comma))
